@@ -105,6 +105,8 @@ class SimFS:
         self.fired = None
         self._pending_after = None
         self.buffered = False     # True: written data reaches the disk only at flush / close
+        self.yield_ops = False    # True: every operation is a scheduling point (several tasks using the files)
+        self.on_done = None       # called after every completed operation
         self.os = types.SimpleNamespace(
             rename=self.rename, replace=self.rename, remove=self.remove, unlink=self.remove,
             makedirs=self.makedirs, scandir=self.scandir, path=_os.path, sep=_os.sep, fspath=_os.fspath,
@@ -125,6 +127,8 @@ class SimFS:
         ('torn', 'crash_torn', 'crash_after') or None"""
         if self.crashed:
             raise kernel.SimCrash()
+        if self.yield_ops:
+            self.sim.yield_point()      # several tasks work on the files: every operation is a scheduling point
         idx = self.count
         self.count += 1
         self.log.append((idx, kind, _os.path.basename(str(path))))
@@ -153,6 +157,8 @@ class SimFS:
 
     def done(self):
         """called after an operation completed"""
+        if self.on_done is not None:
+            self.on_done()
         if self._pending_after:
             self._pending_after = None
             self.crashed = True
